@@ -519,7 +519,9 @@ hs_dict = GenerateMatch(
 
 hs_inner_grid = GenerateMatch( \
     lambda ver: And([
-        Suppress(Regex(r'<< *')),
+        # the grid may start on the line after '<<' (the form the
+        # specification shows) or on the same line
+        Suppress(Regex(r'<< *(?:\r?\n)?')),
         hs_grid[ver],
         Suppress(Regex(r' *>>')),
     ]))
